@@ -47,7 +47,7 @@ def text_xml(rng, s):
 
 
 TEXTS = ['plain', 'Two words', ' lead', 'trail ', '  both  ', 'a&b', '<tag>', 'q"uote', "ap'os", 'line1\nline2', 'tab\there', 'é日本😀', '123', '1e5', 'TRUE', '#N/A', '0012',
-         'x' * 300, 'cr\rlf', '', 'Ünï', '=not formula', "it's <b>&amp;</b>"]
+         'x' * 300, 'cr\rlf', 'Zoë\rKöln 日本😀', '', 'Ünï', '=not formula', "it's <b>&amp;</b>"]
 ERRORS = ['#DIV/0!', '#N/A', '#NAME?', '#NULL!', '#NUM!', '#REF!', '#VALUE!']
 
 
@@ -227,21 +227,30 @@ def generate(seed):
         for b in range(rng.randint(0, 3)):
             c0, r0 = 12 + 4 * b, rng.randint(1, 10)
             w, h = rng.randint(1, 3), rng.randint(1, 6)
-            f = gen_formula(rng, c0, r0, plain_names)
+            # the master is the first cell of the block in document order, not necessarily the top-left cell of `ref`:
+            # it may sit anywhere in the first row; cells left of it in that row are not part of the block,
+            # children in later rows may lie left of the master (negative column offset)
+            mdc = rng.randint(0, w - 1) if rng.random() < 0.5 else 0
+            f = gen_formula(rng, c0 + mdc, r0, plain_names)
             use_shared = rng.random() < 0.7 and w * h > 1
             if use_shared:
                 features.add('shared-formula')
+                if mdc:
+                    features.add('shared-formula-master-not-top-left')
             for dr in range(h):
                 for dc in range(w):
+                    if dr == 0 and dc < mdc:
+                        continue
                     c, r = c0 + dc, r0 + dr
-                    if (c, r) in cells or not formula_fits(f, dc, dr):
+                    odc = dc - mdc
+                    if (c, r) in cells or not formula_fits(f, odc, dr):
                         continue
                     ref = col(c) + str(r)
                     val = str(rng.randint(0, 999))
-                    text = render_formula(f, dc, dr)
+                    text = render_formula(f, odc, dr)
                     if use_shared:
-                        if dc == 0 and dr == 0:
-                            ftag = '<f t="shared" ref="%s:%s" si="%d">%s</f>' % (ref, col(c0 + w - 1) + str(r0 + h - 1), b, escape(text))
+                        if odc == 0 and dr == 0:
+                            ftag = '<f t="shared" ref="%s:%s" si="%d">%s</f>' % (col(c0) + str(r0), col(c0 + w - 1) + str(r0 + h - 1), b, escape(text))
                         else:
                             ftag = '<f t="shared" si="%d"/>' % b
                             if any(isinstance(mid, Ref) and (mid.lc or mid.lr) for (_, mid, _) in f[0]):
